@@ -54,14 +54,15 @@ CLAUSES = {"setup_once_before_claims", "at_most_one_claim_per_partition", "exact
            "claim_starts_at_committed_or_initial", "cleanup_once_after_claims_returned", "final_commit_after_cleanup",
            "consume_returns_last", "requests_carry_issued_identity", "fenced_member_rejoins_fresh",
            "no_skip_across_sessions", "consume_hang", "close_hang", "consume_panic", "channels_closed_after_close",
-           "identity_kept_unless_fenced", "leave_on_close",
+           "identity_kept_unless_fenced", "leave_on_close", "heartbeats_until_final_commit",
            "sync_plan_complete"}   # sync_plan_complete decides part of C08 (assignments as sent through SyncGroup); vlib reports under C07
 SHUTDOWN_CLAUSES = {"consume_hang", "close_hang", "consume_panic", "channels_closed_after_close"}
 ONLY = ["group_*"]
 STRATEGIES = ["range", "roundrobin", "sticky"]
 
 # non-vacuity: broken variants of the model and the clause family each one has to violate
-BUGS_QUICK = ["fence_keeps_id_without_budget", "final_commit_one_short", "commit_keeps_stale_coordinator", "setup_fail_blocks_release"]
+BUGS_QUICK = ["fence_keeps_id_without_budget", "final_commit_one_short", "commit_keeps_stale_coordinator", "setup_fail_blocks_release",
+              "hb_stops_before_cleanup"]
 BUG_EXPECT = {"claim_fail_no_cancel": "ClaimFailEndsSession", "setup_fail_blocks_release": "SetupFailureReturns"}   # default: NoViolation
 BUG_BASE = {"fence_keeps_id_without_budget": "Group.mc.retry.cfg", "final_commit_one_short": "Group.mc.retry.cfg",
             "claim_fail_no_cancel": "Group.mc.retry.cfg", "commit_keeps_stale_coordinator": "Group.mc.retry.cfg",
@@ -227,7 +228,7 @@ def gen_cases(ctx, out):
             n += 1
         # one partition of the subscribed topic is leaderless in the metadata when the leader balances (C08 on the wire:
         # it still has to be assigned; its claim then fails to start and ends the session - code behaviour, accepted)
-        for sc in leaderless_scenarios() + retry_scenarios() + move_scenarios():
+        for sc in leaderless_scenarios() + retry_scenarios() + move_scenarios() + hbkeep_scenarios():
             f.write(json.dumps(sc, separators=(",", ":")) + "\n")
             n += 1
         # partition-count change while a session runs (configuration family, not a model action)
@@ -335,6 +336,28 @@ def retry_scenarios():
                        loglen=3, oretry=orr, nonet=False)
             sc["fam"] = "retry"
             out.append(sc)
+    return out
+
+
+def hbkeep_scenarios():
+    """release order: heartbeats stop only after Cleanup and the final commit. The simulated coordinator ENFORCES a short session
+    timeout (400 ms, heartbeat interval 50 ms); Cleanup is long, measured in the member's own heartbeats (it returns after three
+    more of them reached the coordinator, or when a load-aware bound of 3x the session timeout expires); sessions end by the
+    handler, a cancel or Close - never by a heartbeat answer; some final commits need retries."""
+    def slow(s):
+        s["h"]["slow"] = True
+        return s
+    out = []
+    ok = _sess("early", 1, 1)
+    first = [("early", slow(_sess("early", 1, 1)), {}),
+             ("cancel", slow(_sess("drain", 1, 1, ("cancel", "claim"))), {}),
+             ("close", slow(_sess("drain", 1, 1, ("close", "claim"))), {}),
+             ("retries", slow(_sess("early", 2, 2, cf=["rebalance", "rebalance"])), {"oretry": 3}),
+             ("fast", slow(_sess("early", 2, 2)), {"auto": "fast"})]
+    for name, s1, kw in first:
+        sc = _scen("hbkeep-%s" % name, [_client("c1", [s1, slow(dict(ok, h=dict(ok["h"]))), ok])], np=2, loglen=3, sessto=400, nonet=False, **kw)
+        sc["fam"] = "hbkeep"
+        out.append(sc)
     return out
 
 
@@ -640,6 +663,10 @@ def run(ctx):
                         "needs a reachable coordinator",
                         "coordinator migration: the old broker answers NOT_COORDINATOR to every group request, the group state moves along; "
                         "with Offsets.Retry.Max >= 1 a final-commit attempt refused by the old broker must be followed by one to the new one",
+                        "heartbeats_until_final_commit: timing-free - a long Cleanup waits for three heartbeats of its own member; the clause "
+                        "fails only when its load-aware bound (3x the session timeout, expiring only if the process had the CPU) ran out "
+                        "without a single heartbeat although no heartbeat answer had ended the loop; the enforced session timeout of the "
+                        "simulated coordinator (eviction -> UNKNOWN_MEMBER_ID) is environment behaviour, never a verdict by itself",
                         "hangs are reported by a quiescence-aware watchdog (vAwait): only when the process is fully blocked",
                         "Consumer.Return.Errors=false",
                         "model bounds: <=2 members, 2 partitions (3 in simulation), log of 2-3 records, <=3 Consume calls, fault/trigger budgets <=2"],
